@@ -225,6 +225,23 @@ def run_harnesses(repo: str, verif: str, names: List[str], keep: bool = False, j
             _kill_cbmc(scratch)
         per = parse_output(text)
         build_failed = ("error: could not compile" in text or "error[E" in text) and not per
+        if build_failed and any(f.get("ok") for f in frags.values()):
+            # a fragment that was cut out but does not compile in its wrapper (changed free variables, new helper ...) must not take
+            # every other harness down with it: stub all fragments and run again; fragment harnesses become undecided
+            first_err = _first_error(text)
+            for unit, stub in FRAG_UNITS.items():
+                if frags.get(unit, {}).get("ok"):
+                    open(os.path.join(frag_dir(scratch), unit + ".rs"), "w").write("// fragment stubbed after a build failure\n" + stub)
+                    frags[unit] = {"ok": False, "reason": "the harness module did not compile with the extracted fragments: " + first_err[:300]}
+            try:
+                with MemWatch(target_dir) as mw:
+                    p = subprocess.run(cmd, cwd=os.path.join(scratch, "detector"), env=env, capture_output=True, text=True, timeout=tmo)
+                text = p.stdout + "\n" + p.stderr
+            except subprocess.TimeoutExpired:
+                timed_out = True
+                _kill_cbmc(scratch)
+            per = parse_output(text)
+            build_failed = ("error: could not compile" in text or "error[E" in text) and not per
         for n in names:
             meta = HARNESSES[n]
             h = dict(meta)
